@@ -1625,6 +1625,12 @@ class Stream(AbstractStream):
             at_unit = f" at unit {self.source}" if self.source is other.sink else ""
             raise RuntimeError(f"stream {self} cannot link with stream {other}" + at_unit
                                + "; streams must have the same class to link")
+        if flow:
+            chemicals = self.chemicals; other_chemicals = other.chemicals
+            if chemicals is not other_chemicals and chemicals.IDs != other_chemicals.IDs:
+                raise RuntimeError(f"stream {self} cannot link flows with stream {other}; streams must have the same chemicals")
+            if self._imol.data.ndim == 2 and self.phases != other.phases:
+                raise RuntimeError(f"stream {self} cannot link flows with stream {other}; streams must have the same phases")
         if TP and flow and (phase or self._imol.data.ndim == 2):
             self._imol._data_cache = other._imol._data_cache
         else:
